@@ -391,9 +391,12 @@ where
         A: GLWEInfos,
         B: BDDKeyInfos,
     {
-        self.circuit_bootstrapping_execute_tmp_bytes(block_size, extension_factor, res_infos, &bdd_infos.cbt_infos())
+        // Rounded up to the scratch alignment: the multi-thread variant carves `threads` windows of this size
+        // out of one scratch, and every window starts on an aligned address (an LWE is not a multiple of it).
+        (self.circuit_bootstrapping_execute_tmp_bytes(block_size, extension_factor, res_infos, &bdd_infos.cbt_infos())
             + GGSW::bytes_of_from_infos(res_infos)
-            + LWE::bytes_of_from_infos(bits_infos)
+            + LWE::bytes_of_from_infos(bits_infos))
+        .next_multiple_of(poulpy_hal::DEFAULTALIGN)
     }
 
     fn fhe_uint_prepare_custom_multi_thread<DM, DB, DK, K, T: UnsignedInteger>(
